@@ -3,11 +3,12 @@
 (* family hooks of the eight ScipyModel classes, GaussianKDE's own methods, the selecting Univariate       *)
 (* wrapper -- GENERATED from the AST on every run (CopRun.Gen_uniwrap, tools/vf/uniwrapgen.py) and proved   *)
 (* EQUAL to the hand-written model for ALL states / generator states / inputs (the C19_bridge2_ theorems).             *)
-(* Compiled after C19.v against the freshly generated files.                                               *)
+(* Compiled against the freshly generated files and C19_bridges.v = the bridge block of C19.v (the hook     *)
+(* cuts it out, so that a failure of another statement of C19.v does not hide this layer).                  *)
 (* ===================================================================================================== *)
 From Coq Require Import ZArith QArith List String Bool Lia.
 From Cop Require Import Model.Lifecycle Model.Vine Model.LifecycleTab Spec.LifecycleProofs.
-From CopRun Require Import Gen_c19facts Gen_unictl Gen_uniwrap C19.
+From CopRun Require Import Gen_c19facts Gen_unictl Gen_uniwrap C19_bridges.
 Import ListNotations.
 Open Scope string_scope.
 Open Scope list_scope.
@@ -343,7 +344,7 @@ Proof. intros j n H. destruct j; try discriminate; reflexivity. Qed.
 (* self._instance = select_univariate(sample, self.candidates); self._instance.fit(X); self.fitted = True *)
 Ltac wrapper_fit_tail :=
   rewrite w_seq_eq, w_bind_eq; unfold Wr.py_get_candidates at 1; cbv beta iota delta [fst snd];
-  rewrite w_bind_eq; unfold gen_select_univariate, py_best_candidate, py_get_instance_opt; cbv beta iota delta [fst snd];
+  rewrite w_bind_eq; cbv beta iota delta [fst snd];
   match goal with |- context [match or_select ?o ?S ?C with _ => _ end] =>
     destruct (match or_select o S C with Some i => nth_error C i | None => None end) as [c|] end;
   [ match goal with |- context [get_instance_cand ?cc] => destruct (get_instance_cand cc) as [s0|e] end; cbn [bind]; [|reflexivity];
@@ -357,7 +358,7 @@ Theorem C19_bridge2_wrapper_fit : forall O qi u X g,
   wrun_fit (Wr.gen_Univariate_fit O (gen_inst O qi) X) u g = fit_wrapper_O O u X g.
 Proof.
   intros O qi u X g. unfold wrun_fit, Wr.gen_Univariate_fit, fit_wrapper.
-  unfold Wr.py_jv_lt_len, Wr.m_lift.
+  unfold gen_select_univariate, py_best_candidate, py_get_instance_opt, Wr.py_jv_lt_len, Wr.m_lift.
   rewrite w_bind_eq. rewrite w_bind_eq. rewrite w_bind_eq.
   unfold Wr.py_get_selection_sample_size at 1. cbv beta iota delta [fst snd].
   destruct (truthy (u_sel_ss u)) eqn:ET; cbv beta iota; cbn [andb].
